@@ -80,6 +80,18 @@ def tok_exec(ctx):
         fn = F.fn(fname)
         if fn.reachable or (fname.startswith('<') and not fn.is_closure) or fname not in called:
             out.append(bad('TOK-exec', 'root:' + short(fname), 'entry point runs jobs without acquiring the queue (nobody hands it the token)', fn=fname))
+    # ... and only while the queue is marked as running: a job polled while the state still says "parked" makes its runner misread the
+    # state afterwards (it panics, or never sees the queue as runnable again)
+    for fname, kind, snaps in events_of(P, 'exec_P'):
+        states = set()
+        for ps in snaps:
+            states |= set(ps)
+        key = '%s|%s|state' % (short(fname), kind)
+        odd = sorted(states - {'Running', 'AwokenWhileRunning'})
+        if odd:
+            out.append(bad('TOK-exec', key, 'a job can be run while the queue state is %s (the runner resumed without the state having been put back to Running)' % ', '.join(odd), fn=fname))
+        else:
+            out.append(ok('TOK-exec', key, 'jobs run only in state Running (AwokenWhileRunning if a waker fires meanwhile)', fn=fname))
     if n < 4:
         out.append(undecided('TOK-exec', 'floor', 'found %d execution sites, expected at least 4' % n))
     return out
